@@ -28,7 +28,7 @@ char* g_block; int g_ctor, g_dtor; int g_k;
    propagation / points-to analysis the same facts (the assertion shows they are no-ops) */
 #define VF_ANCHOR __CPROVER_assert(self->_a == (T*)(g_block + sizeof(Data)) && HDR(self)->s == CAP, "anchor"); self->_a = (T*)(g_block + sizeof(Data)); HDR(self)->s = CAP;
 '''
-ANCHOR = (r'\A\{', '{ VF_ANCHOR VF_FIX', 1)
+ANCHOR = (r'\A\{', '{ VF_ANCHOR VF_FIX ', 1)
 
 def cv(pairs, extra=()):
     return {('CAP%d_%s' % (c, x)): ['-DCAP=%d' % c] + list(d) + list(extra) for (c, x, d) in pairs}
@@ -42,13 +42,15 @@ reserve = Unit(
 void Array_reserve(Array* self, int m)
 WF_REQ
 __CPROVER_requires(m == FIX_M && 0 <= g_k && g_k < BLK->n)
+#if SHARED
+/* another live handle (rc > 1) still points at this block: it must stay allocated for that handle to report anything */
+__CPROVER_requires(BLK->rc >= 2)
+__CPROVER_ensures(!__CPROVER_was_freed(g_block))
+#else
 __CPROVER_ensures(HDR(self)->n == __CPROVER_old(BLK->n) && HDR(self)->rc == __CPROVER_old(BLK->rc))
 __CPROVER_ensures(HDR(self)->s >= CAP && HDR(self)->s >= m)
 __CPROVER_ensures(self->_a[g_k] == __CPROVER_old(ELEMS[g_k]))
 __CPROVER_ensures(g_ctor == __CPROVER_old(g_ctor) && g_dtor == __CPROVER_old(g_dtor))
-/* another live handle (rc > 1) points at the old block: it must stay allocated */
-#if SHARED
-__CPROVER_ensures(__CPROVER_r_ok(g_block, sizeof(Data)))
 #endif
 __CPROVER_assigns(*self, __CPROVER_object_whole(g_block))
 __CPROVER_frees(g_block)
@@ -56,7 +58,8 @@ __CPROVER_frees(g_block)
 void vf_harness(void) { Array* a; int m; Array_reserve(a, m); VF_CANARY(); }
 ''',
     entry='Array_reserve',
-    variants=cv([(3, 'm2', ['-DFIX_M=2']), (3, 'm4', ['-DFIX_M=4']), (3, 'm7', ['-DFIX_M=7']), (4, 'm9', ['-DFIX_M=9']), (6, 'm12', ['-DFIX_M=12'])], ['-DSHARED=0']),
+    variants=dict(cv([(3, 'm2', ['-DFIX_M=2']), (3, 'm4', ['-DFIX_M=4']), (3, 'm7', ['-DFIX_M=7']), (4, 'm9', ['-DFIX_M=9']), (6, 'm12', ['-DFIX_M=12'])], ['-DSHARED=0']),
+                  **cv([(3, 'm7_SHARED', ['-DFIX_M=7'])], ['-DSHARED=1'])),
     kind='bounded', bound='capacity and requested size fixed per variant; n, rc, contents symbolic', unwind=70,
     desc='reserve(m): length, reference count and elements kept, capacity >= max(old, m), no element constructed or destroyed',
     functions=['Array::reserve'],
@@ -101,7 +104,7 @@ void vf_harness(void) { Array* a; int m; Array_resize(a, m); VF_CANARY(); }
 insert = Unit(
     'Array_insert', 'C01',
     cuts=[Cut('insert', A, r'^Array<T>& Array<T>::insert\(int k, const T& x\)\s*$', **AM, rules=[D_RULE, RET_THIS] + LIFE,
-              post=[(r'\A\{', '{ VF_ANCHOR VF_ANCHOR_X', 1)])],
+              post=[(r'\A\{', '{ VF_ANCHOR VF_ANCHOR_X ', 1)])],
     text=PRE + r'''
 int g_j;
 #if ALIAS == 0
@@ -137,7 +140,7 @@ void vf_harness(void) { Array* a; int k; const T* x; Array_insert(a, k, x); VF_C
 remove = Unit(
     'Array_remove', 'C01',
     cuts=HELP_CUTS() + [Cut('resize_b', A, r'^\tArray& resize\(int m\)\s*$', **AM, rules=[D_RULE, RET_THIS] + LIFE),
-                        Cut('remove', A, r'^\tArray& remove\(int i, int n = 1\)\s*$', **AM, rules=[D_RULE, RET_THIS] + LIFE, post=[(r'\A\{', '{ VF_ANCHOR', 1)])],
+                        Cut('remove', A, r'^\tArray& remove\(int i, int n = 1\)\s*$', **AM, rules=[D_RULE, RET_THIS] + LIFE, post=[(r'\A\{', '{ VF_ANCHOR ', 1)])],
     text=PRE + HELP_C + r'''
 static void Array_resize(Array* self, int m) @@resize_b@@
 void Array_remove(Array* self, int i, int n)
@@ -158,3 +161,82 @@ void vf_harness(void) { Array* a; int i, n; Array_remove(a, i, n); VF_CANARY(); 
     functions=['Array::remove', 'Array::resize'],
 )
 UNITS += [resize, insert, remove]
+
+# handles: copy constructor, destructor, operator=  (reference counting; the sequential protocol - interleavings are C12, n/a)
+FREE_CUT = lambda: Cut('free', A, r'^void Array<T>::free\(\)\s*$', **AM, rules=[D_RULE] + LIFE)
+B_ANCHOR = (r'\A\{', '{ __CPROVER_assert(b_p->_a == ELEMS, "anchor b"); ((Array*)b_p)->_a = ELEMS; ', 1)
+HKIND = dict(kind='bounded', bound='capacity 4; n, rc, contents symbolic', unwind=10, variants={'CAP4': ['-DCAP=4']})
+
+h_copy = Unit(
+    'Array_copy_ctor', 'C01',
+    cuts=[Cut('copy', A, r'^\tArray\(const Array& b\) ', **AM, rules=[D_RULE, (r'\bb\._a\b', 'b_p->_a', None)], post=[B_ANCHOR])],
+    text=PRE + r"""
+void Array_copy(Array* self, const Array* b_p)
+__CPROVER_requires(__CPROVER_is_fresh(self, sizeof(Array)) && __CPROVER_is_fresh(b_p, sizeof(Array)) && __CPROVER_is_fresh(g_block, sizeof(Data) + CAP * sizeof(T)))
+__CPROVER_requires(b_p->_a == ELEMS && BLK->s == CAP && 0 <= BLK->n && BLK->n <= CAP && 1 <= BLK->rc && BLK->rc <= 1000000)
+/* a second handle to the SAME block: both report the same length and elements from now on */
+__CPROVER_ensures(self->_a == ELEMS && b_p->_a == ELEMS && BLK->rc == __CPROVER_old(BLK->rc) + 1 && BLK->n == __CPROVER_old(BLK->n) && BLK->s == CAP)
+__CPROVER_assigns(*self, BLK->rc, b_p->_a)
+@@copy@@
+void vf_harness(void) { Array* a; const Array* b; Array_copy(a, b); VF_CANARY(); }
+""",
+    entry='Array_copy', desc='copy constructor: same block, reference count + 1, nothing else changes', functions=['Array::Array(const Array&)'], **HKIND)
+
+h_dtor = Unit(
+    'Array_dtor', 'C01',
+    cuts=[FREE_CUT(), Cut('dtor', A, r'^\t~Array\(\) ', **AM, rules=[D_RULE], post=[(r'\A\{', '{ VF_ANCHOR ', 1)])],
+    text=PRE + r"""
+static void Array_free(Array* self) @@free@@
+void Array_dtor(Array* self)
+WF_REQ
+/* drops one reference; the storage is released and every element destroyed exactly once iff it was the last handle */
+__CPROVER_ensures(__CPROVER_old(BLK->rc) > 1 ==> (BLK->rc == __CPROVER_old(BLK->rc) - 1 && BLK->n == __CPROVER_old(BLK->n) && g_dtor == __CPROVER_old(g_dtor)))
+__CPROVER_ensures(__CPROVER_old(BLK->rc) == 1 ==> (g_dtor - __CPROVER_old(g_dtor) == __CPROVER_old(BLK->n)))
+__CPROVER_ensures(__CPROVER_was_freed(g_block) == (__CPROVER_old(BLK->rc) == 1))
+__CPROVER_assigns(*self, __CPROVER_object_whole(g_block), g_dtor)
+__CPROVER_frees(g_block)
+@@dtor@@
+void vf_harness(void) { Array* a; Array_dtor(a); VF_CANARY(); }
+""",
+    entry='Array_dtor', desc='destructor: rc - 1; storage freed and n destructions exactly when it was the last handle', functions=['Array::~Array', 'Array::free'], **HKIND)
+
+h_assign = Unit(
+    'Array_assign', 'C01',
+    cuts=[FREE_CUT(), Cut('assign', A, r'^\tArray& operator=\(const Array& b\)\s*$', **AM,
+                          rules=[D_RULE, RET_THIS, (r'\bb\._a\b', 'b_p->_a', None), (r'this\s*==\s*&b', 'self == b_p', None)],
+                          post=[(r'\A\{', '{ VF_ANCHOR VF_ANCHOR_B ', 1)])],
+    text=PRE + r"""
+static void Array_free(Array* self) @@free@@
+char* g_block2;
+#define BLK2 ((Data*)g_block2)
+#if SELF
+#define VF_ANCHOR_B
+#else
+#define VF_ANCHOR_B __CPROVER_assert(b_p->_a == (T*)(g_block2 + sizeof(Data)), "anchor b"); ((Array*)b_p)->_a = (T*)(g_block2 + sizeof(Data));
+#endif
+void Array_assign(Array* self, const Array* b_p)
+WF_REQ
+#if SELF
+__CPROVER_requires(b_p == self)
+/* self-assignment changes nothing */
+__CPROVER_ensures(self->_a == ELEMS && BLK->rc == __CPROVER_old(BLK->rc) && BLK->n == __CPROVER_old(BLK->n) && g_dtor == __CPROVER_old(g_dtor) && !__CPROVER_was_freed(g_block))
+#else
+__CPROVER_requires(__CPROVER_is_fresh(b_p, sizeof(Array)) && __CPROVER_is_fresh(g_block2, sizeof(Data) + CAP * sizeof(T)))
+__CPROVER_requires(b_p->_a == (T*)(g_block2 + sizeof(Data)) && BLK2->s == CAP && 0 <= BLK2->n && BLK2->n <= CAP && 1 <= BLK2->rc && BLK2->rc <= 1000000)
+/* the target becomes a handle to b's block; its old block loses one reference and is released iff that was the last */
+__CPROVER_ensures(self->_a == (T*)(g_block2 + sizeof(Data)) && BLK2->rc == __CPROVER_old(BLK2->rc) + 1 && BLK2->n == __CPROVER_old(BLK2->n))
+__CPROVER_ensures(__CPROVER_old(BLK->rc) > 1 ==> (BLK->rc == __CPROVER_old(BLK->rc) - 1 && g_dtor == __CPROVER_old(g_dtor)))
+__CPROVER_ensures(__CPROVER_old(BLK->rc) == 1 ==> (g_dtor - __CPROVER_old(g_dtor) == __CPROVER_old(BLK->n)))
+__CPROVER_ensures(__CPROVER_was_freed(g_block) == (__CPROVER_old(BLK->rc) == 1))
+#endif
+__CPROVER_assigns(*self, __CPROVER_object_whole(g_block), g_dtor; !SELF: __CPROVER_object_whole(g_block2), b_p->_a)
+__CPROVER_frees(g_block)
+@@assign@@
+void vf_harness(void) { Array* a; const Array* b; Array_assign(a, b); VF_CANARY(); }
+""",
+    entry='Array_assign', desc='operator=(const Array&): drop the old block (released iff last), share the new one; self-assignment is a no-op',
+    functions=['Array::operator=(const Array&)', 'Array::free'], kind='bounded', bound='capacity 4; n, rc, contents symbolic', unwind=10,
+    variants={'CAP4': ['-DCAP=4', '-DSELF=0'], 'CAP4_SELF': ['-DCAP=4', '-DSELF=1']})
+UNITS += [h_copy, h_dtor, h_assign]
+LEVEL = 'other'
+EXPLANATION = 'Every C01 unit fixes the block capacity per variant (CBMC cannot encode realloc/memmove on a block whose size is symbolic); obligations are discharged for all n, indices, reference counts, contents and aliasing choices at those capacities. Counts are reported under coverage.bounded.'
